@@ -180,8 +180,11 @@ def near_request(draw, prev, fams):
         # the same equation object applied to a state on another grid with equal shape
         # (or with another dtype / other data)
         g0 = GRIDS[prev["grid"]]
+        auto = prev["bc"].get("k", "").startswith("auto") and prev["bc2"].get("k", "").startswith("auto")
+        # with auto_periodic_* conditions the same equation object also fits grids that differ
+        # in periodicity only (seeded change C10-4: periodicity missing in the PDE cache key)
         similar = [i for i, g in enumerate(GRIDS) if g["shape"] == g0["shape"] and axis_names(g) == axis_names(g0)
-                   and g["periodic"] == g0["periodic"]]
+                   and (auto or g["periodic"] == g0["periodic"])]
         return dict(prev, grid=draw(st.sampled_from(similar)), reuse=True, seed=new["seed"],
                     dtype=draw(st.sampled_from([prev["dtype"], new["dtype"]])),
                     kind=draw(st.sampled_from([prev["kind"], new["kind"]])))
